@@ -1,12 +1,175 @@
-(* C10 -- two threads: a public call split into platform read and wrap step.
-   With _nowrap_lock (schedules satisfying [lock_ok]) every answer is the one
-   demanded by the raw kernel readings in read order; without the lock a
-   schedule exists in which a monotone kernel counter is answered too high. *)
+(* C10 -- threads: a public call split into platform read and wrap step, any number
+   of threads, cache_clear anywhere.
+   1. every well-formed schedule is linearised by [lin] (calls at their wrap step):
+      the answers are those of the sequential specification on that history;
+   2. under _nowrap_lock ([lock_ok]) the nowrap=True listings appear in that history
+      in the order they were read;
+   3. read-time reading: under the lock, without a clear overlapping a nowrap call,
+      every answer is the one fixed at the call's read; without the lock a schedule
+      exists in which a monotone kernel counter is answered too high. *)
 From PV Require Import C10.Spec C10.Proofs.
 Require Import Lia.
 
-Lemma pget_pset {A} (p : slots A) t v t' : pget (pset p t v) t' = if Bool.eqb t t' then v else pget p t'.
-Proof. destruct p as [a b], t, t'; reflexivity. Qed.
+Lemma pget_pset {A} (p : slots A) t v t' : pget (pset p t v) t' = if Nat.eqb t t' then v else pget p t'.
+Proof. reflexivity. Qed.
+
+(* ------------------------------------------------------------ 1. linearisation *)
+Fixpoint tag (tids : list nat) (tr : list (outcome pobs)) : list (outcome (nat * pobs)) :=
+  match tids, tr with
+  | t :: ts, Val a :: r => Val (t, a) :: tag ts r
+  | _ :: _, Exc e :: _ => [Exc e]
+  | _ :: _, OutOfModel :: _ => [OutOfModel]
+  | _, _ => []
+  end.
+
+Lemma ctrace_lin : forall sched s p, sched_ok p sched = true ->
+  ctrace s p sched = tag (map fst (lin p sched)) (ptrace false s (map snd (lin p sched))).
+Proof.
+  induction sched as [|c sched IH]; intros s p Hs; [reflexivity|].
+  destruct c as [tid f per nowrap raw|tid|tid f]; cbn [sched_ok] in Hs.
+  - apply andb_true_iff in Hs as [Hs Hs']. apply andb_true_iff in Hs as [Hidle _].
+    cbn [ctrace cstep_run lin]. destruct (pget p tid); [discriminate|]. cbn [fst snd]. apply IH. exact Hs'.
+  - apply andb_true_iff in Hs as [Hfl Hs'].
+    cbn [ctrace cstep_run lin]. destruct (pget p tid) as [call|]; [|discriminate].
+    cbn [map fst snd ptrace]. destruct (pstep false s call) as [[s' a]| |]; cbn [obind fst snd tag]; try reflexivity.
+    f_equal. apply IH. exact Hs'.
+  - apply andb_true_iff in Hs as [Hidle Hs'].
+    cbn [ctrace cstep_run lin]. destruct (pget p tid); [discriminate|].
+    cbn [map fst snd ptrace pstep obind tag]. f_equal. apply IH. exact Hs'.
+Qed.
+
+Lemma tag_map_Val : forall tids l, length tids = length l -> tag tids (map Val l) = map Val (combine tids l).
+Proof.
+  induction tids as [|t tids IH]; intros [|a l] H; cbn [length] in H; try discriminate; cbn [map tag combine]; [reflexivity|].
+  f_equal. apply IH. lia.
+Qed.
+Lemma spec_ptrace_length : forall ops g, length (spec_ptrace g ops) = length ops.
+Proof. induction ops as [|o ops IH]; intros g; cbn [spec_ptrace length]; [reflexivity|]. rewrite IH. reflexivity. Qed.
+
+Lemma lin_pop_ok : forall sched p, (forall t c, pget p t = Some c -> pop_ok c = true) ->
+  sched_ok p sched = true -> forallb pop_ok (map snd (lin p sched)) = true.
+Proof.
+  induction sched as [|c sched IH]; intros p Hp Hs; [reflexivity|].
+  destruct c as [tid f per nowrap raw|tid|tid f]; cbn [sched_ok] in Hs; cbn [lin].
+  - apply andb_true_iff in Hs as [Hs Hs']. apply andb_true_iff in Hs as [_ Hd].
+    apply IH; [|exact Hs']. intros t c. rewrite pget_pset. destruct (Nat.eqb tid t); [|apply Hp].
+    intros E. inversion E; subst. exact Hd.
+  - apply andb_true_iff in Hs as [Hfl Hs']. destruct (pget p tid) as [call|] eqn:Ep; [|discriminate].
+    cbn [map snd forallb]. rewrite (Hp tid call Ep). cbn [andb].
+    apply IH; [|exact Hs']. intros t c. rewrite pget_pset. destruct (Nat.eqb tid t); [discriminate | apply Hp].
+  - apply andb_true_iff in Hs as [_ Hs']. cbn [map snd forallb pop_ok andb]. apply IH; assumption.
+Qed.
+
+Theorem threads_linearised sched : sched_ok idle sched = true ->
+  ctrace [] idle sched =
+  map Val (combine (map fst (lin idle sched)) (spec_ptrace [] (map snd (lin idle sched)))).
+Proof.
+  intros Hs. rewrite (ctrace_lin sched [] idle Hs).
+  rewrite public_exact by (apply lin_pop_ok; [intros t c E; discriminate | exact Hs]).
+  apply tag_map_Val. rewrite spec_ptrace_length, !map_length. reflexivity.
+Qed.
+
+(* ------------------------------------------------------------ 2. kernel order under the lock *)
+Definition is_nwo (o : option pop) : bool := match o with Some c => is_nw c | None => false end.
+Definition held (holder : option nat) (p : slots pop) : list pop :=
+  match holder with
+  | Some h => match pget p h with Some c => [c] | None => [] end
+  | None => []
+  end.
+(* the lock holder is the one thread with a nowrap=True call in flight *)
+Definition HI (holder : option nat) (p : slots pop) : Prop :=
+  (holder = None -> forall t, is_nwo (pget p t) = false) /\
+  (forall h, holder = Some h -> is_nwo (pget p h) = true /\ forall t, t <> h -> is_nwo (pget p t) = false).
+
+Lemma HI_idle : HI None (@idle pop).
+Proof. split; [intros _ t; reflexivity | intros h E; discriminate]. Qed.
+
+Lemma HI_step holder p c : HI holder p -> sched_ok p [c] = true -> lock_ok holder [c] = true ->
+  match c with
+  | CRead tid f per nowrap raw => HI (if nowrap then Some tid else holder) (pset p tid (Some (PCall f per nowrap raw)))
+  | CWrap tid => HI (release holder tid) (pset p tid None)
+  | CClear _ _ => HI holder p
+  end.
+Proof.
+  intros [H0 H1] Hs Hl. destruct c as [tid f per nowrap raw|tid|tid f]; cbn [sched_ok lock_ok] in Hs, Hl.
+  - apply andb_true_iff in Hs as [Hs _]. apply andb_true_iff in Hs as [Hidle _].
+    destruct (pget p tid) eqn:Ep; [discriminate|]. destruct nowrap.
+    + destruct holder as [h|]; [discriminate|]. split; [discriminate|].
+      intros h E. inversion E; subst h. split.
+      * rewrite pget_pset, Nat.eqb_refl. reflexivity.
+      * intros t Hne. rewrite pget_pset. destruct (Nat.eqb_spec tid t); [congruence|]. apply H0. reflexivity.
+    + split.
+      * intros E t. rewrite pget_pset. destruct (Nat.eqb tid t); [reflexivity | apply H0; exact E].
+      * intros h E. destruct (H1 h E) as [Ha Hb]. split.
+        -- rewrite pget_pset. destruct (Nat.eqb_spec tid h); [|exact Ha]. subst. rewrite Ep in Ha. discriminate.
+        -- intros t Hne. rewrite pget_pset. destruct (Nat.eqb tid t); [reflexivity | apply Hb; exact Hne].
+  - unfold release. destruct holder as [h|].
+    + destruct (H1 h eq_refl) as [Ha Hb]. destruct (Nat.eqb_spec h tid).
+      * subst. split; [|discriminate]. intros _ t. rewrite pget_pset. destruct (Nat.eqb_spec tid t); [reflexivity|].
+        apply Hb. congruence.
+      * split; [discriminate|]. intros h' E. inversion E; subst h'. split.
+        -- rewrite pget_pset. destruct (Nat.eqb_spec tid h); [congruence | exact Ha].
+        -- intros t Hne. rewrite pget_pset. destruct (Nat.eqb tid t); [reflexivity | apply Hb; exact Hne].
+    + split; [|discriminate]. intros _ t. rewrite pget_pset. destruct (Nat.eqb tid t); [reflexivity | apply H0; reflexivity].
+  - split; assumption.
+Qed.
+
+Lemma held_length holder p : (length (held holder p) <= 1)%nat.
+Proof. unfold held. destruct holder as [h|]; [destruct (pget p h)|]; cbn; lia. Qed.
+
+(* the calls that have returned are, in the history, in the order of their reads; [tail] = the
+   nowrap=True call still in flight when the schedule ends (at most one) *)
+Lemma locked_order : forall sched holder p, HI holder p ->
+  sched_ok p sched = true -> lock_ok holder sched = true ->
+  exists tail, held holder p ++ reads_nowrap sched = nowrap_calls (map snd (lin p sched)) ++ tail
+               /\ (length tail <= 1)%nat.
+Proof.
+  induction sched as [|c sched IH]; intros holder p HH Hs Hl.
+  - exists (held holder p). cbn [lin map nowrap_calls filter reads_nowrap app]. rewrite app_nil_r.
+    split; [reflexivity | apply held_length].
+  - assert (Hs1 : sched_ok p [c] = true).
+    { destruct c; cbn [sched_ok] in *; apply andb_true_iff in Hs as [Hs _]; rewrite Hs; reflexivity. }
+    assert (Hl1 : lock_ok holder [c] = true).
+    { destruct c as [tid f per nowrap raw|tid|tid f]; cbn [lock_ok] in *; auto.
+      destruct nowrap; auto. destruct holder; auto. }
+    pose proof (HI_step holder p c HH Hs1 Hl1) as HH'. clear Hs1 Hl1.
+    destruct HH as [H0 H1].
+    destruct c as [tid f per nowrap raw|tid|tid f]; cbn [sched_ok lock_ok] in Hs, Hl.
+    + apply andb_true_iff in Hs as [Hs Hs']. apply andb_true_iff in Hs as [Hidle _].
+      destruct (pget p tid) eqn:Ep; [discriminate|]. cbn [lin]. destruct nowrap.
+      * destruct holder as [h|]; [discriminate|].
+        destruct (IH (Some tid) _ HH' Hs' Hl) as [tail [E Ht]]. exists tail. split; [|exact Ht].
+        rewrite <- E. cbn [reads_nowrap held app]. rewrite pget_pset, Nat.eqb_refl. reflexivity.
+      * destruct (IH holder _ HH' Hs' Hl) as [tail [E Ht]]. exists tail. split; [|exact Ht].
+        rewrite <- E. cbn [reads_nowrap]. f_equal. unfold held. destruct holder as [h|]; [|reflexivity].
+        rewrite pget_pset. destruct (Nat.eqb_spec tid h); [|reflexivity].
+        subst. destruct (H1 h eq_refl) as [Ha _]. rewrite Ep in Ha. discriminate.
+    + apply andb_true_iff in Hs as [Hfl Hs'].
+      destruct (pget p tid) as [call|] eqn:Ep; [|discriminate]. cbn [lin]. rewrite Ep.
+      destruct (IH (release holder tid) _ HH' Hs' Hl) as [tail [E Ht]]. exists tail. split; [|exact Ht].
+      cbn [map snd nowrap_calls filter reads_nowrap]. fold (nowrap_calls (map snd (lin (pset p tid None) sched))).
+      unfold release in E. destruct holder as [h|].
+      * destruct (H1 h eq_refl) as [Ha Hb]. destruct (Nat.eqb_spec h tid).
+        -- subst h. unfold is_nwo in Ha. rewrite Ep in Ha. rewrite Ha. cbn [held] in *. rewrite Ep.
+           cbn [app] in *. rewrite E. reflexivity.
+        -- assert (Hc : is_nw call = false).
+           { pose proof (Hb tid (not_eq_sym n)) as Hx. unfold is_nwo in Hx. rewrite Ep in Hx. exact Hx. }
+           rewrite Hc. rewrite <- E. f_equal. unfold held. rewrite pget_pset.
+           destruct (Nat.eqb_spec tid h); [congruence | reflexivity].
+      * assert (Hc : is_nw call = false).
+        { pose proof (H0 eq_refl tid) as Hx. unfold is_nwo in Hx. rewrite Ep in Hx. exact Hx. }
+        rewrite Hc. exact E.
+    + apply andb_true_iff in Hs as [_ Hs']. cbn [lin map snd nowrap_calls filter is_nw reads_nowrap].
+      apply (IH holder p HH' Hs' Hl).
+Qed.
+
+Theorem threads_locked_kernel_order sched :
+  sched_ok idle sched = true -> lock_ok None sched = true ->
+  exists tail, reads_nowrap sched = nowrap_calls (map snd (lin idle sched)) ++ tail /\ (length tail <= 1)%nat.
+Proof. intros Hs Hl. apply (locked_order sched None idle HI_idle Hs Hl). Qed.
+
+(* ------------------------------------------------------------ 3. read-time reading *)
+Definition is_nowrap (o : option pop) : bool := is_nwo o.
 
 Definition slot_ok (g0 g : ghost) (call : option pop) (ans : option pobs) : Prop :=
   match call with
@@ -22,73 +185,47 @@ Definition slot_ok (g0 g : ghost) (call : option pop) (ans : option pobs) : Prop
 Lemma slot_ok_indep g0 g g0' g' call ans :
   is_nowrap call = false -> slot_ok g0 g call ans -> slot_ok g0' g' call ans.
 Proof.
-  destruct call as [[f per [|] raw|f]|]; cbn [is_nowrap slot_ok]; try discriminate; auto.
+  destruct call as [[f per [|] raw|f]|]; cbn [is_nowrap is_nwo is_nw slot_ok]; try discriminate; auto.
 Qed.
 
-Definition R (s : state) (p : slots pop) (g : ghost) (sp : slots pobs) : Prop :=
+(* the state refines the ghost as it was before the in-flight nowrap=True call was read *)
+Definition R (holder : option nat) (s : state) (p : slots pop) (g : ghost) (sp : slots pobs) : Prop :=
   exists g0, Inv Wpub s g0 /\
     (forall t, slot_ok g0 g (pget p t) (pget sp t)) /\
-    (lock_free p = true -> g = g0) /\
-    is_nowrap (pget p false) && is_nowrap (pget p true) = false.
+    (holder = None -> g = g0) /\ HI holder p.
 
-Lemma lock_free_pget p : lock_free p = negb (is_nowrap (pget p false)) && negb (is_nowrap (pget p true)).
-Proof. destruct p; reflexivity. Qed.
-
-Lemma lock_free_slot p t : lock_free p = true -> is_nowrap (pget p t) = false.
-Proof.
-  rewrite lock_free_pget. intros H. apply andb_true_iff in H as [H1 H2].
-  apply negb_true_iff in H1. apply negb_true_iff in H2. destruct t; assumption.
-Qed.
-
-Lemma other_not_nowrap p t t' :
-  is_nowrap (pget p false) && is_nowrap (pget p true) = false ->
-  is_nowrap (pget p t) = true -> t' <> t -> is_nowrap (pget p t') = false.
-Proof.
-  intros H Ht Hne. destruct t, t'; try congruence.
-  - rewrite Ht, andb_true_r in H. exact H.
-  - rewrite Ht in H. exact H.
-Qed.
-
-Lemma lock_free_pset_non p tid call :
-  is_nowrap (pget p tid) = false -> is_nowrap call = false -> lock_free (pset p tid call) = lock_free p.
-Proof.
-  destruct p as [a b], tid; unfold lock_free, pset, pget; cbn [fst snd]; intros H1 H2; rewrite H1, H2; reflexivity.
-Qed.
-
-Lemma eqb_false_neq t t' : Bool.eqb t t' = false -> t' <> t.
-Proof. destruct t, t'; cbn; congruence. Qed.
-
-Lemma locked_refines : forall sched s p g sp, R s p g sp ->
-  sched_ok p sched = true -> lock_ok p sched = true -> clear_ok p sched = true ->
+Lemma locked_refines : forall sched holder s p g sp, R holder s p g sp ->
+  sched_ok p sched = true -> lock_ok holder sched = true -> clear_ok holder sched = true ->
   ctrace s p sched = map Val (spec_ctrace g sp sched).
 Proof.
-  induction sched as [|c sched IH]; intros s p g sp HR Hs Hl Hc; [reflexivity|].
-  destruct HR as [g0 [HI [Hslots [Hfree Hone]]]].
+  induction sched as [|c sched IH]; intros holder s p g sp HR Hs Hl Hc; [reflexivity|].
+  destruct HR as [g0 [HI0 [Hslots [Hfree HH]]]].
+  assert (Hs1 : sched_ok p [c] = true).
+  { destruct c; cbn [sched_ok] in *; apply andb_true_iff in Hs as [Hs _]; rewrite Hs; reflexivity. }
+  assert (Hl1 : lock_ok holder [c] = true).
+  { destruct c as [tid f per nowrap raw|tid|tid f]; cbn [lock_ok] in *; auto.
+    destruct nowrap; auto. destruct holder; auto. }
+  pose proof (HI_step holder p c HH Hs1 Hl1) as HH'. clear Hs1 Hl1.
+  destruct HH as [H0 H1].
   destruct c as [tid f per nowrap raw|tid|tid f]; cbn [sched_ok lock_ok clear_ok] in Hs, Hl, Hc.
   - (* platform read *)
     apply andb_true_iff in Hs as [Hs Hs']. apply andb_true_iff in Hs as [Hidle Hd].
-    apply andb_true_iff in Hl as [Hlk Hl'].
     destruct (pget p tid) eqn:Ep; [discriminate|].
     cbn [ctrace cstep_run spec_ctrace spec_cstep fst snd]. rewrite Ep. cbn [fst snd].
-    apply IH; try assumption.
     destruct nowrap.
     + (* takes the lock *)
-      cbn [negb orb] in Hlk. pose proof (Hfree Hlk) as Eg. subst g0.
-      exists g. split; [exact HI|]. split; [|split].
-      * intros t. rewrite !pget_pset. destruct (Bool.eqb tid t) eqn:Et.
-        -- cbn [slot_ok]. split; [exact Hd|]. split; reflexivity.
-        -- apply (slot_ok_indep g g); [apply lock_free_slot; exact Hlk | apply Hslots].
-      * intros Hf. exfalso. pose proof (lock_free_slot _ tid Hf) as Hx. rewrite pget_pset in Hx.
-        replace (Bool.eqb tid tid) with true in Hx by (destruct tid; reflexivity). discriminate.
-      * rewrite !pget_pset. pose proof (lock_free_slot p false Hlk). pose proof (lock_free_slot p true Hlk).
-        destruct tid; cbn [Bool.eqb]; [rewrite H; reflexivity | rewrite H0; apply andb_false_r].
+      destruct holder as [h|]; [discriminate|]. pose proof (Hfree eq_refl) as Eg. subst g0.
+      apply (IH (Some tid)); try assumption.
+      exists g. split; [exact HI0|]. split; [|split; [discriminate | exact HH']].
+      intros t. rewrite !pget_pset. destruct (Nat.eqb tid t) eqn:Et.
+      * cbn [slot_ok]. split; [exact Hd|]. split; reflexivity.
+      * apply (slot_ok_indep g g); [apply (H0 eq_refl t) | apply Hslots].
     + (* lock-free read *)
-      cbn [spec_pstep fst snd]. exists g0. split; [exact HI|]. split; [|split].
-      * intros t. rewrite !pget_pset. destruct (Bool.eqb tid t) eqn:Et.
-        -- cbn [slot_ok]. split; [exact Hd | reflexivity].
-        -- apply Hslots.
-      * intros Hf. apply Hfree. rewrite lock_free_pset_non in Hf; [exact Hf | rewrite Ep; reflexivity | reflexivity].
-      * rewrite !pget_pset. destruct tid; cbn [Bool.eqb is_nowrap andb]; [apply andb_false_r | reflexivity].
+      cbn [spec_pstep fst snd]. apply (IH holder); try assumption.
+      exists g0. split; [exact HI0|]. split; [|split; [exact Hfree | exact HH']].
+      intros t. rewrite !pget_pset. destruct (Nat.eqb tid t) eqn:Et.
+      * cbn [slot_ok]. split; [exact Hd | reflexivity].
+      * apply Hslots.
   - (* wrap step and return *)
     apply andb_true_iff in Hs as [Hfl Hs'].
     destruct (pget p tid) as [call|] eqn:Ep; [|discriminate].
@@ -97,68 +234,127 @@ Proof.
     cbn [ctrace cstep_run spec_ctrace spec_cstep fst snd]. rewrite Ep.
     destruct nowrap; cbn [slot_ok] in Hslot.
     + destruct Hslot as [Hd [Ea Eg]].
-      destruct (pstep_refines false s g0 (PCall f per true raw) HI Hd (or_introl eq_refl)) as [s' [E HI']].
+      (* the thread wrapping a nowrap=True call is the lock holder *)
+      assert (Eh : holder = Some tid).
+      { destruct holder as [h|].
+        - destruct (Nat.eq_dec tid h) as [->|Hne]; [reflexivity|]. destruct (H1 h eq_refl) as [_ Hb].
+          pose proof (Hb tid Hne) as Hx. rewrite Ep in Hx. discriminate.
+        - pose proof (H0 eq_refl tid) as Hx. rewrite Ep in Hx. discriminate. }
+      subst holder. unfold release in *. rewrite Nat.eqb_refl in *.
+      destruct (pstep_refines false s g0 (PCall f per true raw) HI0 Hd (or_introl eq_refl)) as [s' [E HI']].
       rewrite E. cbn [obind fst snd]. rewrite Ea. cbn [map]. f_equal.
-      apply IH; try assumption.
-      exists g. split; [rewrite Eg; exact HI'|]. split; [|split].
-      * intros t. rewrite !pget_pset. destruct (Bool.eqb tid t) eqn:Et; [reflexivity|].
-        apply (slot_ok_indep g0 g); [|apply Hslots].
-        apply (other_not_nowrap p tid t Hone); [rewrite Ep; reflexivity | apply eqb_false_neq; exact Et].
-      * reflexivity.
-      * rewrite !pget_pset. destruct tid; cbn [Bool.eqb is_nowrap andb]; [apply andb_false_r | reflexivity].
+      apply (IH None); try assumption.
+      exists g. split; [rewrite Eg; exact HI'|]. split; [|split; [reflexivity | exact HH']].
+      intros t. rewrite !pget_pset. destruct (Nat.eqb_spec tid t); [reflexivity|].
+      apply (slot_ok_indep g0 g); [|apply Hslots].
+      destruct (H1 tid eq_refl) as [_ Hb]. apply Hb. congruence.
     + destruct Hslot as [Hd Ea].
       rewrite (nowrap_false_raw false s f per raw (dict_ok_raw_ok f raw Hd)). cbn [obind fst snd]. rewrite Ea. cbn [map]. f_equal.
-      apply IH; try assumption.
-      exists g0. split; [exact HI|]. split; [|split].
-      * intros t. rewrite !pget_pset. destruct (Bool.eqb tid t) eqn:Et; [reflexivity | apply Hslots].
-      * intros Hf. apply Hfree. rewrite lock_free_pset_non in Hf; [exact Hf | rewrite Ep; reflexivity | reflexivity].
-      * rewrite !pget_pset. destruct tid; cbn [Bool.eqb is_nowrap andb]; [apply andb_false_r | reflexivity].
-  - (* cache_clear *)
+      (* a lock-free call returning leaves the holder in place *)
+      assert (Er : release holder tid = holder).
+      { unfold release. destruct holder as [h|]; [|reflexivity]. destruct (Nat.eqb_spec h tid); [|reflexivity].
+        subst h. destruct (H1 tid eq_refl) as [Ha _]. rewrite Ep in Ha. discriminate. }
+      rewrite Er in *.
+      apply (IH holder); try assumption.
+      exists g0. split; [exact HI0|]. split; [|split; [exact Hfree | exact HH']].
+      intros t. rewrite !pget_pset. destruct (Nat.eqb tid t) eqn:Et; [reflexivity | apply Hslots].
+  - (* cache_clear, no nowrap=True call in flight *)
     apply andb_true_iff in Hs as [Hidle Hs']. apply andb_true_iff in Hc as [Hlf Hc'].
+    destruct holder as [h|]; [discriminate|].
     destruct (pget p tid) eqn:Ep; [discriminate|].
     cbn [ctrace cstep_run spec_ctrace spec_cstep pstep obind fst snd]. rewrite Ep. cbn [obind fst snd map]. f_equal.
-    pose proof (Hfree Hlf) as Eg. subst g0.
-    apply IH; try assumption.
-    exists (dremove (fname f) g). split; [apply Inv_clear; exact HI|]. split; [|split].
-    + intros t. apply (slot_ok_indep g g); [apply lock_free_slot; exact Hlf | apply Hslots].
-    + reflexivity.
-    + exact Hone.
+    pose proof (Hfree eq_refl) as Eg. subst g0.
+    apply (IH None); try assumption.
+    exists (dremove (fname f) g). split; [apply Inv_clear; exact HI0|]. split; [|split; [reflexivity | exact HH']].
+    intros t. apply (slot_ok_indep g g); [apply (H0 eq_refl t) | apply Hslots].
 Qed.
 
-(* the code with _nowrap_lock: every possible schedule of two threads *)
 Theorem locked_exact sched :
-  sched_ok (None, None) sched = true -> lock_ok (None, None) sched = true -> clear_ok (None, None) sched = true ->
-  ctrace [] (None, None) sched = map Val (spec_ctrace [] (None, None) sched).
+  sched_ok idle sched = true -> lock_ok None sched = true -> clear_ok None sched = true ->
+  ctrace [] idle sched = map Val (spec_ctrace [] idle sched).
 Proof.
-  apply locked_refines. exists []. split; [apply Inv_init|]. split; [|split].
-  - intros t. destruct t; reflexivity.
+  apply (locked_refines sched None). exists []. split; [apply Inv_init|]. split; [|split].
+  - intros t. reflexivity.
   - reflexivity.
-  - reflexivity.
+  - apply HI_idle.
 Qed.
 
-(* the code without the lock: thread A is pre-empted between its read (150) and its wrap step *)
+(* the code without the lock: thread 0 is pre-empted between its read (150) and its wrap step *)
 Definition eth (v : Z) : dict := [(bs "eth0", [0; v; 0; 0; 0; 0; 0; 0])].
 Definition race_sched : list cstep :=
-  [ CRead false Net true true (eth 100); CWrap false;
-    CRead false Net true true (eth 150);
-    CRead true Net true true (eth 200); CWrap true;
-    CWrap false;
-    CRead true Net true true (eth 210); CWrap true ].
+  [ CRead 0 Net true true (eth 100); CWrap 0;
+    CRead 0 Net true true (eth 150);
+    CRead 1 Net true true (eth 200); CWrap 1;
+    CWrap 0;
+    CRead 1 Net true true (eth 210); CWrap 1 ].
 
 Theorem unlocked_refuted :
-  exists sched, sched_ok (None, None) sched = true /\ clear_ok (None, None) sched = true /\
-    lock_ok (None, None) sched = false /\
-    (* the readings, in read order, never go backwards: the demanded answers are the raw readings *)
-    spec_ctrace [] (None, None) sched =
-      [(false, PDict (eth 100)); (true, PDict (eth 200)); (false, PDict (eth 150)); (true, PDict (eth 210))] /\
-    ctrace [] (None, None) sched =
-      [Val (false, PDict (eth 100)); Val (true, PDict (eth 200)); Val (false, PDict (eth 350)); Val (true, PDict (eth 410))].
+  exists sched, sched_ok idle sched = true /\ clear_ok None sched = true /\ lock_ok None sched = false /\
+    (* the listings in read order never go backwards ... *)
+    reads_nowrap sched = [PCall Net true true (eth 100); PCall Net true true (eth 150);
+                          PCall Net true true (eth 200); PCall Net true true (eth 210)] /\
+    (* ... but reach the history out of order ... *)
+    nowrap_calls (map snd (lin idle sched)) = [PCall Net true true (eth 100); PCall Net true true (eth 200);
+                                                PCall Net true true (eth 150); PCall Net true true (eth 210)] /\
+    (* ... demanded: the raw readings; answered: 350 for 150 and 410 for 210 *)
+    spec_ctrace [] idle sched =
+      [(0%nat, PDict (eth 100)); (1%nat, PDict (eth 200)); (0%nat, PDict (eth 150)); (1%nat, PDict (eth 210))] /\
+    ctrace [] idle sched =
+      [Val (0%nat, PDict (eth 100)); Val (1%nat, PDict (eth 200)); Val (0%nat, PDict (eth 350)); Val (1%nat, PDict (eth 410))].
 Proof. exists race_sched. vm_compute. repeat split; reflexivity. Qed.
 
-(* the hypotheses of locked_exact are satisfiable by a schedule with overlapping calls *)
+(* the hypotheses are satisfiable: three threads, both functions, overlapping calls, a clear
+   while a lock-free call is in flight (locked_exact), and a clear while a nowrap=True call is in
+   flight (threads_linearised / threads_locked_kernel_order) *)
 Example locked_example :
-  let sched := [ CRead false Net true true (eth 100); CRead true Net true false (eth 120); CWrap false; CWrap true;
-                 CRead true Disk true true []; CRead false Net false false (eth 90); CWrap true; CClear true Net; CWrap false;
-                 CRead false Net true true (eth 50); CWrap false ] in
-  sched_ok (None, None) sched = true /\ lock_ok (None, None) sched = true /\ clear_ok (None, None) sched = true.
+  let sched := [ CRead 0 Net true true (eth 100); CRead 1 Net true false (eth 120); CRead 2 Disk false false [];
+                 CWrap 0; CWrap 2; CWrap 1;
+                 CRead 1 Disk true true []; CRead 0 Net false false (eth 90); CWrap 1; CClear 2 Net; CWrap 0;
+                 CRead 0 Net true true (eth 50); CWrap 0 ] in
+  sched_ok idle sched = true /\ lock_ok None sched = true /\ clear_ok None sched = true.
 Proof. vm_compute. repeat split; reflexivity. Qed.
+Example overlapping_clear_example :
+  let sched := [ CRead 0 Net true true (eth 100); CWrap 0;
+                 CRead 0 Net true true (eth 40); CClear 1 Net; CWrap 0;      (* clear between read and wrap *)
+                 CRead 2 Net true true (eth 30); CWrap 2 ] in
+  sched_ok idle sched = true /\ lock_ok None sched = true /\ clear_ok None sched = false /\
+  ctrace [] idle sched = [Val (0%nat, PDict (eth 100)); Val (1%nat, PDone); Val (0%nat, PDict (eth 40)); Val (2%nat, PDict (eth 70))].
+Proof. vm_compute. repeat split; reflexivity. Qed.
+
+(* ------------------------------------------------------------ cache_clear forgets, every interleaving *)
+Lemma spec_ptrace_app : forall a b g,
+  spec_ptrace g (a ++ b) = spec_ptrace g a ++ spec_ptrace (spec_pexec g a) b.
+Proof. induction a as [|o a IH]; intros b g; cbn [app spec_ptrace spec_pexec]; [reflexivity|]. rewrite IH. reflexivity. Qed.
+
+Lemma combine_app {A B} : forall (a a' : list A) (b b' : list B), length a = length b ->
+  combine (a ++ a') (b ++ b') = combine a b ++ combine a' b'.
+Proof.
+  induction a as [|x a IH]; intros a' [|y b] b' H; cbn [length] in H; try discriminate; cbn [app combine]; [reflexivity|].
+  f_equal. apply IH. lia.
+Qed.
+
+(* In EVERY well-formed schedule (any number of threads, locked or not, clears anywhere): if in the
+   history a cache_clear of f is followed -- after steps that do not feed f's history -- by a
+   nowrap=True call of f, that call is answered with its raw listing. *)
+Theorem threads_clear_forgets sched L1 t L2 t' f per raw L3 :
+  sched_ok idle sched = true ->
+  lin idle sched = L1 ++ (t, PClear f) :: L2 ++ (t', PCall f per true raw) :: L3 ->
+  no_feed f (map snd L2) = true ->
+  exists before after, ctrace [] idle sched = before ++ Val (t', present f per raw) :: after /\
+                       length before = (length L1 + 1 + length L2)%nat.
+Proof.
+  intros Hs EL Hnf. rewrite (threads_linearised sched Hs), EL.
+  set (A := L1 ++ (t, PClear f) :: L2).
+  replace (L1 ++ (t, PClear f) :: L2 ++ (t', PCall f per true raw) :: L3)
+    with (A ++ (t', PCall f per true raw) :: L3) by (unfold A; rewrite <- app_assoc; reflexivity).
+  rewrite !map_app. cbn [map fst snd]. rewrite spec_ptrace_app. cbn [spec_ptrace].
+  rewrite combine_app by (rewrite spec_ptrace_length; rewrite !map_length; reflexivity).
+  cbn [combine]. rewrite map_app. cbn [map].
+  eexists. eexists. split.
+  - f_equal. f_equal. f_equal. cbn [spec_pstep snd].
+    unfold A. rewrite map_app. cbn [map snd]. rewrite spec_pexec_app. cbn [spec_pexec spec_pstep fst].
+    rewrite no_feed_keeps_empty; [rewrite spec_dict_nil; reflexivity | | exact Hnf].
+    rewrite gget_dremove, beqb_refl. reflexivity.
+  - rewrite map_length, combine_length, spec_ptrace_length, !map_length, Nat.min_id.
+    unfold A. rewrite app_length. cbn [length]. lia.
+Qed.
